@@ -32,6 +32,8 @@ inductive Out
   | discErr (id : Nat)                  -- TorDisconnectError
   | ev (lid : Nat) (name : Line) (payload : Line)
   | notified (rid : Nat)
+  | legacy (rid : Nat) (clean : Bool)   -- a callback chained on the deprecated `on_disconnect` Deferred ran: with the protocol (clean) / a Failure
+  | legacyGone (rid : Nat)              -- `on_disconnect` is `None` (after the loss): nothing to chain on
   | exc (e : Exc)
   deriving DecidableEq, Repr
 
@@ -41,6 +43,8 @@ structure Q where
   events : List (Line × List Nat) := []     -- `self.events`: name ↦ callbacks, insertion order
   lost : Bool := false
   waiters : List Nat := []                  -- `_when_disconnected._observers`
+  legacy : List Nat := []                   -- callbacks chained on the deprecated `on_disconnect` Deferred
+  clean : Bool := false                     -- will the close reason be `ConnectionDone`? (an input; only `on_disconnect` looks at it)
   deriving DecidableEq, Repr
 
 def Q.hasCb (q : Q) : Bool :=
@@ -179,8 +183,12 @@ def applyActions (act : Nat → Act) : List Action → Q → Q × List Out
 /-- `connectionLost` -/
 def lose (q : Q) : Q × List Out :=
   let outstanding := q.command.toList ++ q.commands
-  ({ q with command := none, commands := [], lost := true, waiters := [] },
-   q.waiters.map Out.notified ++ outstanding.map fun c => Out.discErr c.id)
+  ({ q with command := none, commands := [], lost := true, waiters := [], legacy := [] },
+   q.waiters.map Out.notified ++ (q.legacy.map fun r => Out.legacy r q.clean) ++ outstanding.map fun c => Out.discErr c.id)
+
+/-- a callback chained on `proto.on_disconnect` (deprecated, still supported) -/
+def onDisc (q : Q) (rid : Nat) : Q × List Out :=
+  if q.lost then (q, [Out.legacyGone rid]) else ({ q with legacy := q.legacy ++ [rid] }, [])
 
 /-- `when_disconnected` -/
 def whenDisc (q : Q) (rid : Nat) : Q × List Out :=
